@@ -29,8 +29,9 @@ def main() -> int:
         if a.replay:
             if hasattr(mod, "replay"):
                 return mod.replay(a.replay)
-            print(json.dumps(json.load(open(a.replay)), indent=1)[:4000])
-            return 0
+            from . import replay as _replay
+
+            return _replay.replay(a.prop, a.replay)
         return mod.run(tier, seed)
     except Exception:
         traceback.print_exc()
